@@ -346,10 +346,21 @@ fn check_state(ctx: &mut Ctx, state: &gix_index::State, opts: Options, repo: &Pa
         return;
     }
     let p = path.to_string_lossy().to_string();
+    // `--sparse` only for states that are sparse themselves: in a repository configured for the sparse index git
+    // otherwise collapses, in memory, the skip-worktree entries of a full index into directory entries the state
+    // never had (and needs every object for that). `index.sparse=false` keeps git from converting a full index.
+    let mut args = vec!["-c", "sparse.expectFilesOutsideOfPatterns=true"];
+    if !state.is_sparse() {
+        args.extend(["-c", "index.sparse=false"]);
+    }
+    args.extend(["ls-files", "--stage", "--debug", "-z"]);
+    if state.is_sparse() {
+        args.push("--sparse");
+    }
     match git::run_env(
         repo,
         // expectFilesOutsideOfPatterns: in a sparse checkout git would otherwise clear SKIP_WORKTREE in memory for present files
-        &["-c", "sparse.expectFilesOutsideOfPatterns=true", "ls-files", "--stage", "--debug", "-z", "--sparse"],
+        &args,
         &[("GIT_INDEX_FILE", p.as_str())],
     ) {
         Err(e) => ctx.inconclusive(&format!("git spawn failed: {e}")),
